@@ -34,6 +34,17 @@ theorem step_unwinding (L : Low) (a b : RngState) (op : Op) (h : Agree L a b) (o
       · simp [hxg]
       · simp only [hxg, if_false] at hx ⊢
         exact hg x hx
+  | reset g =>
+    by_cases hos : g = .os
+    · simp [step, lowStep, hos]; exact ⟨hg, hn, hs⟩
+    · simp only [step, lowStep, hos, if_false]
+      refine ⟨trivial, ?_, hn, hs⟩
+      intro x hx
+      simp only [RngState.setGen]
+      by_cases hxg : x = g
+      · simp [hxg]
+      · simp only [hxg, if_false] at hx ⊢
+        exact hg x hx
   | envSeed s n =>
     simp only [step, lowStep]
     refine ⟨trivial, hg, ?_, ?_⟩
@@ -74,6 +85,7 @@ theorem step_unwinding (L : Low) (a b : RngState) (op : Op) (h : Agree L a b) (o
       | actSpace => exact hg _ hx
       | obsSpace => exact hg _ hx
       | os => exact hg _ hx
+      | noise => exact hg _ hx
     · intro i hi
       by_cases hin : i < n
       · simp [hin]
@@ -151,6 +163,17 @@ theorem step_differ (L : Low) (a b : RngState) (op : Op) (h : Differ L a b) :
       · simp [hxg] at hx
       · simp only [hxg, if_false] at hx ⊢
         exact hg x hx
+  | reset g =>
+    by_cases hos : g = .os
+    · simp [step, lowStep, hos]; exact ⟨hg, hp, hn⟩
+    · simp only [step, lowStep, hos, if_false]
+      refine ⟨?_, hp, hn⟩
+      intro x hx
+      simp only [RngState.setGen]
+      by_cases hxg : x = g
+      · simp [hxg] at hx
+      · simp only [hxg, if_false] at hx ⊢
+        exact hg x hx
   | envSeed s n =>
     simp only [step, lowStep]
     refine ⟨hg, ?_, ?_⟩
@@ -193,6 +216,7 @@ theorem step_differ (L : Low) (a b : RngState) (op : Op) (h : Differ L a b) :
       | actSpace => exact hg _ hx
       | obsSpace => exact hg _ hx
       | os => exact hg _ hx
+      | noise => exact hg _ hx
     · intro i hi
       by_cases hin : i < n
       · simp [hin] at hi
@@ -224,6 +248,7 @@ theorem step_differ (L : Low) (a b : RngState) (op : Op) (h : Differ L a b) :
 theorem step_out_length (a b : RngState) (op : Op) : (step a op).2.length = (step b op).2.length := by
   cases op with
   | seed g s => by_cases h : g = .os <;> simp [step, h]
+  | reset g => by_cases h : g = .os <;> simp [step, h]
   | envSeed s n => rfl
   | envReset n => rfl
   | draw g k => rfl
@@ -249,6 +274,7 @@ theorem run_differ (t : List Op) : ∀ (L : Low) (a b : RngState), Differ L a b 
         simp only [step, List.cons_append, List.nil_append, List.cons.injEq, Draw.mk.injEq] at hc
         exact this hc.1.2.1
       | seed g s => simp [opOK] at hok
+      | reset g => simp [opOK] at hok
       | envSeed s n => simp [opOK] at hok
       | envReset n => simp [opOK] at hok
       | discard g k => simp [opOK] at hok
@@ -283,6 +309,7 @@ theorem deliveries_append (t u : List Op) : ∀ st, deliveries (t ++ u) st =
 def inFamily (cfg : Cfg) : Gen → Bool
   | .py | .np | .torch | .actSpace => true
   | .env i => decide (i < cfg.nEnvs)
+  | .noise => decide (cfg.noise ≠ .none)
   | _ => false
 
 /-- a used draw on a seeded family, or a discarded draw -/
@@ -305,8 +332,8 @@ theorem envDrawOps_fine (cfg : Cfg) : ∀ (ds : List Nat) (i : Nat), (envDrawOps
 
 theorem actionOps_fine (cfg : Cfg) (t : Nat) (b : Bool) : (actionOps cfg t b).all (fineOp cfg) = true := by
   simp only [actionOps, predictOps, noiseOps]
-  cases cfg.algo <;> cases cfg.noise <;> cases cfg.useSde <;> cases b <;> cases warmup cfg t <;>
-    simp [Algo.onPolicy, fineOp, inFamily]
+  cases cfg.algo <;> cases hn : cfg.noise <;> cases cfg.useSde <;> cases b <;> cases warmup cfg t <;>
+    simp [Algo.onPolicy, fineOp, inFamily, hn]
 
 theorem trainOps_fine (cfg : Cfg) (n : Nat) (s b : Bool) : (trainOps cfg n s b).all (fineOp cfg) = true := by
   simp only [trainOps]
@@ -319,10 +346,12 @@ theorem sdeResample_fine (cfg : Cfg) (k : Nat) : (sdeResample cfg k).all (fineOp
 /-- every segment of `learn` except the `envReset` itself consists of fine operations -/
 def segTail (cfg : Cfg) : Ev → List Op
   | .reset ds => envDrawOps cfg 0 ds
+  | .learnStart => []
   | e => segOps cfg e
 
 theorem segTail_fine (cfg : Cfg) (e : Ev) : (segTail cfg e).all (fineOp cfg) = true := by
   cases e with
+  | learnStart => rfl
   | rolloutStart => simp only [segTail, segOps]; split <;> simp [fineOp, inFamily]
   | step t k b ds =>
     simp only [segTail, segOps, List.all_append, sdeResample_fine, actionOps_fine, envDrawOps_fine, Bool.and_self]
@@ -356,6 +385,7 @@ theorem fine_ok (cfg : Cfg) (L : Low) (hL : Good cfg L) (t : List Op) (h : t.all
       simp only [traceOK, opOK, lowStep, lowRun, Bool.true_and]
       exact ih h2
     | seed g s => simp [fineOp] at h1
+    | reset g => simp [fineOp] at h1
     | envSeed s n => simp [fineOp] at h1
     | envReset n => simp [fineOp] at h1
 
@@ -364,7 +394,28 @@ theorem construct_ok (cfg : Cfg) :
   cases hc : cfg.cnn <;>
     simp [construct, hc, traceOK, lowRun, lowStep, opOK, Low.bot, Pre]
 
-theorem reset_pre (cfg : Cfg) (L : Low) (h : Pre cfg L) : Good cfg (lowStep L (.envReset cfg.nEnvs)) := by
+theorem learnStart_pre (cfg : Cfg) (L : Low) (h : Pre cfg L) :
+    traceOK L (learnStartOps cfg) = true ∧ Pre cfg (lowRun L (learnStartOps cfg)) ∧
+    (inFamily cfg .noise = true → (lowRun L (learnStartOps cfg)).gens .noise = true) := by
+  obtain ⟨h1, h2, h3, h4, h5⟩ := h
+  cases hn : cfg.noise <;>
+    simp [learnStartOps, hn, lowRun, lowStep, traceOK, opOK, Pre, inFamily, h1, h2, h3, h4] <;> exact h5
+
+theorem learnStart_good (cfg : Cfg) (L : Low) (h : Good cfg L) :
+    traceOK L (learnStartOps cfg) = true ∧ Good cfg (lowRun L (learnStartOps cfg)) := by
+  obtain ⟨h1, h2⟩ := h
+  cases hn : cfg.noise
+  · simp only [learnStartOps, hn, lowRun, traceOK]; exact ⟨trivial, h1, h2⟩
+  all_goals
+    simp only [learnStartOps, hn, lowRun, traceOK, opOK, lowStep, Bool.and_self]
+    refine ⟨trivial, ?_, h2⟩
+    intro g hg
+    by_cases e : g = .noise
+    · simp [e]
+    · simp [e]; exact h1 g hg
+
+theorem reset_pre (cfg : Cfg) (L : Low) (h : Pre cfg L)
+    (hN : inFamily cfg .noise = true → L.gens .noise = true) : Good cfg (lowStep L (.envReset cfg.nEnvs)) := by
   obtain ⟨h1, h2, h3, h4, h5⟩ := h
   refine ⟨?_, ?_⟩
   · intro g hg
@@ -378,6 +429,7 @@ theorem reset_pre (cfg : Cfg) (L : Low) (h : Pre cfg L) : Good cfg (lowStep L (.
     | actSpace => simpa [lowStep] using h4
     | obsSpace => simp [inFamily] at hg
     | os => simp [inFamily] at hg
+    | noise => simpa [lowStep] using hN hg
   · intro i hi
     simp [lowStep, hi]
 
@@ -396,16 +448,19 @@ theorem reset_good (cfg : Cfg) (L : Low) (h : Good cfg L) : Good cfg (lowStep L 
     | actSpace => simpa [lowStep] using h1 _ hg
     | obsSpace => simp [inFamily] at hg
     | os => simp [inFamily] at hg
+    | noise => simpa [lowStep] using h1 _ hg
   · intro i hi
     simp [lowStep, hi]
 
 theorem segOps_eq (cfg : Cfg) (e : Ev) :
-    segOps cfg e = (match e with | .reset _ => [.envReset cfg.nEnvs] | _ => []) ++ segTail cfg e := by
+    segOps cfg e = (match e with | .reset _ => [.envReset cfg.nEnvs] | .learnStart => learnStartOps cfg | _ => []) ++
+      segTail cfg e := by
   cases e <;> simp [segOps, segTail]
 
 theorem seg_ok (cfg : Cfg) (L : Low) (hL : Good cfg L) (e : Ev) :
     traceOK L (segOps cfg e) = true ∧ Good cfg (lowRun L (segOps cfg e)) := by
   cases e with
+  | learnStart => exact learnStart_good cfg L hL
   | reset ds =>
     have hg := reset_good cfg L hL
     have := fine_ok cfg _ hg _ (envDrawOps_fine cfg ds 0)
@@ -438,10 +493,12 @@ theorem events_ok (cfg : Cfg) (evs : List Ev) : ∀ (L : Low), Good cfg L →
     exact ⟨trivial, h4⟩
 
 theorem first_reset_ok (cfg : Cfg) (L : Low) (hL : Pre cfg L) (ds : List Nat) :
-    traceOK L (segOps cfg (.reset ds)) = true ∧ Good cfg (lowRun L (segOps cfg (.reset ds))) := by
-  have hg := reset_pre cfg L hL
+    traceOK L (firstLearn cfg ds) = true ∧ Good cfg (lowRun L (firstLearn cfg ds)) := by
+  obtain ⟨l1, l2, l3⟩ := learnStart_pre cfg L hL
+  have hg := reset_pre cfg _ l2 l3
   have := fine_ok cfg _ hg _ (envDrawOps_fine cfg ds 0)
-  simp only [segOps, List.cons_append, List.nil_append, traceOK, opOK, lowRun, Bool.true_and]
+  simp only [firstLearn, traceOK_append, lowRun_append, l1, segOps, List.cons_append, List.nil_append, traceOK,
+    opOK, lowRun, Bool.true_and]
   exact ⟨this.1, by rw [this.2]; exact hg⟩
 
 theorem libTrace_ok (cfg : Cfg) (ds : List Nat) (evs : List Ev) :
@@ -510,6 +567,7 @@ theorem fine_run (cfg : Cfg) (t : List Op) : ∀ (st : RngState), SeededInv cfg 
         exact i2 d hd
       · simpa [deliveries, step] using i3
     | seed g s => simp [fineOp] at h1
+    | reset g => simp [fineOp] at h1
     | envSeed s n => simp [fineOp] at h1
     | envReset n => simp [fineOp] at h1
 
